@@ -1372,6 +1372,7 @@ static int cfg_parse_internal(cfg_t *cfg, int level, int force_state, cfg_opt_t 
 	cfg_opt_t funcopt = CFG_STR(NULL, NULL, 0);
 
 	int ignore = 0;		/* ignore until this token, traverse parser w/o error */
+	unsigned long skip_depth = 0;	/* open braces of ignored (unknown) sections */
 	int num_values = 0;	/* number of values found for a list option */
 	int rc;
 
@@ -1700,11 +1701,9 @@ static int cfg_parse_internal(cfg_t *cfg, int level, int force_state, cfg_opt_t 
 				state = 12; /* Section, ignore all until closing brace */
 			} else if (tok == CFGT_STR) {
 				state = 11; /* No '=' ... must be a titled section */
-			} else if (tok == '}' && force_state == 10) {
-				if (comment)
-					free(comment);
-
-				return STATE_CONTINUE;
+			} else if (tok == '}' && skip_depth) {
+				skip_depth--;
+				state = skip_depth ? 15 : 0;
 			}
 			break;
 
@@ -1718,21 +1717,20 @@ static int cfg_parse_internal(cfg_t *cfg, int level, int force_state, cfg_opt_t 
 
 		case 12: /* unknown option, tok is the first token of the sub-section's body */
 			if (tok == CFGT_STR) {
-				if (level >= MAX_SECTION_DEPTH) {
-					cfg_error(cfg, _("sections nested too deeply"));
-					goto error;
-				}
-				/* name of the first item, recursively ignore the items up to
-				 * and including the closing brace of the sub-section */
-				rc = cfg_parse_internal(cfg, level + 1, 10, NULL);
-				if (rc != STATE_CONTINUE)
-					goto error;
+				/* name of the first item: ignore the items up to and
+				 * including the closing brace of the sub-section.  The
+				 * open braces are counted, not recursed into, ignored
+				 * content may be nested to any depth */
+				skip_depth++;
+				ignore = 0;
+				state = 10;
+				break;
 			} else if (tok != '}') {
 				cfg_error(cfg, _("unexpected token '%s'"), cfg_yylval);
 				goto error;
 			}
 			ignore = 0;
-			state = force_state == 10 ? 15 : 0;
+			state = skip_depth ? 15 : 0;
 			break;
 
 		case 13: /* unknown option, consume tokens silently until end of func/list */
@@ -1747,7 +1745,7 @@ static int cfg_parse_internal(cfg_t *cfg, int level, int force_state, cfg_opt_t 
 
 			/* In a sub-section more items or the closing brace follow */
 			ignore = 0;
-			state = force_state == 10 ? 15 : 0;
+			state = skip_depth ? 15 : 0;
 			break;
 
 		case 14: /* unknown option, assuming value or start of list */
@@ -1763,18 +1761,14 @@ static int cfg_parse_internal(cfg_t *cfg, int level, int force_state, cfg_opt_t 
 			}
 
 			ignore = 0;
-			if (force_state == 10)
-				state = 15;
-			else
-				state = 0;
+			state = skip_depth ? 15 : 0;
 			break;
 
 		case 15: /* unknown option, next item or end of the ignored sub-section */
 			if (tok == '}') {
-				if (comment)
-					free(comment);
-
-				return STATE_CONTINUE;
+				skip_depth--;
+				state = skip_depth ? 15 : 0;
+				break;
 			}
 			if (tok != CFGT_STR) {
 				cfg_error(cfg, _("unexpected token '%s'"), cfg_yylval);
